@@ -199,8 +199,10 @@ FinishMod == /\ phase = "process" /\ stack # <<>> /\ Top.pc > Len(Ops(Top.mod)) 
 \* second pass: only bases that were None are re-resolved, in the class's parent scope (model.py:575-589)
 FinalBases(c) == [b \in 1..Len(classes[c].raw) |->
                     IF classes[c].inito[b] # NoObj THEN classes[c].inito[b]
-                    ELSE LET r == ResolveName(st, st.objs[c].par, classes[c].raw[b], BO)
-                         IN IF r # NoObj /\ Cls(st, r) = "Class" THEN r ELSE NoObj]
+                    ELSE LET r  == ResolveName(st, st.objs[c].par, classes[c].raw[b], BO)
+                             \* the class may have been moved since: retry with the name as expanded in its original scope
+                             r2 == IF r # NoObj /\ Cls(st, r) = "Class" THEN r ELSE FindObject(st, classes[c].initb[b], BO)
+                         IN IF r2 # NoObj /\ Cls(st, r2) = "Class" THEN r2 ELSE NoObj]
 \* C3 merge (mro.py) over resolved bases; unresolved bases contribute nothing here (they are strings in the code)
 RECURSIVE Merge(_, _)
 Merge(seqs, fuel) ==
@@ -220,7 +222,10 @@ Lin(c, fb, fuel) ==
 
 PostProcess == /\ phase = "process" /\ stack = <<>> /\ unproc = <<>> /\ ~st.crash
                /\ LET fb == [c \in DOMAIN classes |-> FinalBases(c)] IN
-                    post' = [c \in DOMAIN classes |-> [final |-> fb[c], mro |-> Lin(c, fb, 8)]]
+                    \* Class._init_mro: an inconsistent hierarchy (ValueError) falls back on allbases(include_self)
+                    post' = [c \in DOMAIN classes |-> [final |-> fb[c],
+                                 mro |-> LET l == Lin(c, fb, 8) IN IF 0 \in SeqRange(l) THEN AllBases(c, fb, 8) ELSE l,
+                                 consistent |-> 0 \notin SeqRange(Lin(c, fb, 8))]]
                /\ phase' = "done"
                /\ UNCHANGED <<st, mobj, mstate, unproc, stack, classes, log>>
 Crashed == /\ phase = "process" /\ st.crash
